@@ -334,8 +334,13 @@ class _rewrite_captured_vars(ast.NodeTransformer):
             return ast.Constant(value=new_value)
 
         # If we fail, then just move on - but keep the value of a captured variable that stood
-        # left of the dot. Classes and modules stay names: back ends know them by name.
-        if isinstance(value, ast.Constant) and not isinstance(value.value, (type, ModuleType)):
+        # left of the dot (directly, or further left in `cut.a.b`). Classes and modules stay
+        # names: back ends know them by name.
+        if isinstance(value, ast.Constant):
+            if isinstance(value.value, (type, ModuleType)):
+                return node
+            return ast.Attribute(value=value, attr=node.attr, ctx=node.ctx)
+        if value is not node.value:
             return ast.Attribute(value=value, attr=node.attr, ctx=node.ctx)
         return node
 
